@@ -625,6 +625,8 @@ class SkoolParser:
                 break
 
         if self.memory_map:
+            while non_entries and not non_entries[-1]:
+                non_entries.pop()
             self.memory_map[-1].footer = non_entries
 
         last_entry = None
